@@ -27,11 +27,12 @@ split over two IntegralData with the same key.
 
 import copy
 import hashlib
+import importlib
 import warnings
 
 import numpy as np
 import ufl
-import ufl.algorithms.compute_form_data as CFD
+from ufl.algorithms.apply_algebra_lowering import apply_algebra_lowering
 from ufl.algorithms.domain_analysis import build_integral_data, group_form_integrals
 from ufl.classes import Form, Integral
 
@@ -41,6 +42,8 @@ from ..passcheck import count_verdicts, safe_str, skeleton
 from ..seval import Result, S
 from ..world import World
 from .C01 import CELLS, gen_form
+
+CFD = importlib.import_module("ufl.algorithms.compute_form_data")  # the module (ufl.algorithms re-exports the function under the same name)
 
 LEVEL = "exploration"
 ENGINE = "seval"
@@ -55,8 +58,8 @@ LEVEL_TEXT = (
     "in type / in nesting; for every (domain, integral type, single subdomain id, full-fidelity canonical metadata, "
     "coordinate-derivative chain) the sum of the output integrands is compared with the sum of the input integrands that "
     "apply there by an independent interpreter at random points of random cells (50-digit confirmation), and the "
-    "IntegralData buckets are checked to be an exact partition.  A fixed list of metadata probe pairs is run in every "
-    "worker.  Exploration over generated cases."
+    "IntegralData buckets are checked to be an exact partition.  A fixed list of metadata probe pairs forms the first "
+    "cases of every run.  Exploration over generated cases."
 )
 LEVEL_NOTE = (
     "trusted: vf/seval.py, vf/world.py, the metadata canonical form in this module; single-cell-type meshes, affine simplex "
@@ -87,10 +90,10 @@ EVAL_COUNTER = "cases"
 FLOORS = {
     "quick": {"case_held": 500, "groups_compared": 3000, "groups_nonzero": 2500, "merges_observed": 500,
               "slices_with_distinct_metadata": 300, "cd_groups_compared": 150, "build_events": 500, "attach_events": 250,
-              "tuple_id_inputs": 300, "everywhere_appended_groups": 300, "probe_pairs": 16 * 30},
+              "tuple_id_inputs": 300, "everywhere_appended_groups": 300, "probe_pairs": 60},
     "thorough": {"case_held": 10000, "groups_compared": 60000, "groups_nonzero": 50000, "merges_observed": 10000,
                  "slices_with_distinct_metadata": 6000, "cd_groups_compared": 3000, "build_events": 10000, "attach_events": 5000,
-                 "tuple_id_inputs": 6000, "everywhere_appended_groups": 6000, "probe_pairs": 16 * 30},
+                 "tuple_id_inputs": 6000, "everywhere_appended_groups": 6000, "probe_pairs": 60},
 }
 KEPT_APART_NEEDED = ["ndarray-one-entry", "float-beyond-8-digits", "type-int-vs-str", "type-float-vs-int", "type-bool-vs-int",
                      "keys", "seq-nesting", "value-int", "value-str"]
@@ -333,7 +336,7 @@ def fam_container_collisions(rng):
         return rng.sample([{"o": {}}, {"o": []}, {"o": None}, {"o": [[]]}], 3)
     if kind == "pairs":
         return [{"o": {"1": 2}}, {"o": [[1, 2]]}, {"o": {"1": 3}}]
-    return [{"w": 0.1}, {"w": np.float32(0.1)}, {"w": float(np.float32(0.1))}]
+    return [{"w": 0.1}, {"w": np.float32(0.1)}, {"w": 0.2}]
 
 
 FAMILIES = [
@@ -603,8 +606,9 @@ def judge_group_event(ctx, vals, fin_integrals, append, out_integrals, drop_degr
         all_in = [e for key in ks for e in gin.get(key, [])]
         all_out = [e for key in ks for e in gout.get(key, [])]
         tv, _, _ = vals.compare(all_in, all_out, it)
-        Ms = sorted({key[3] for key in bad}, key=repr)
-        chains = {key[4] for key in bad}
+        suspect = [key for key in ks if verdicts[key][0] in ("violated", "inconclusive")]
+        Ms = sorted({key[3] for key in suspect}, key=repr)
+        chains = {key[4] for key in suspect}
         first = bad[0]
         bv = next((x for x in verdicts[first][1] if x.kind in ("disagree", "output-ambiguous")), None)
         detail = {
@@ -613,13 +617,16 @@ def judge_group_event(ctx, vals, fin_integrals, append, out_integrals, drop_degr
             "output": [[str(i.subdomain_id()), md_text(i.metadata()), safe_str(i.integrand(), 300)] for i in out_integrals if i.integral_type() == it][:8],
             "world": vals.worlds_for(it)[0].describe() if vals.worlds_for(it) else None,
         }
-        if tv == "held" and len(bad) >= 2 and len(Ms) >= 2:
-            raws = [raw_in.get(m, raw_out.get(m)) for m in Ms]
+        if tv != "violated" and len(Ms) >= 2:
+            losers = [key for key in suspect if gin.get(key) and not gout.get(key)]
+            gainers = [key for key in suspect if gout.get(key)]
+            pair = next(((g_[3], l_[3]) for l_ in losers for g_ in gainers if g_[3] != l_[3] and g_[4] == l_[4]), (Ms[0], Ms[1]))
+            raws = [raw_in.get(m, raw_out.get(m)) for m in pair]
             dkd = diffkind(raws[0], raws[1])
             ctx.violation(f"C15/{label}/merged-different-metadata/{dkd}",
                           f"integrands with metadata {md_text(raws[0])} and {md_text(raws[1])} on ({it}, subdomain {k}) were merged into one integral "
                           f"(difference: {dkd}); {bv.kind if bv else ''} rel. err {bv.err if bv else None}", detail)
-        elif tv == "held" and len(bad) >= 2 and len(chains) >= 2:
+        elif tv != "violated" and len(chains) >= 2:
             ctx.violation(f"C15/{label}/merged-different-coordinate-derivatives/{rel}",
                           f"integrands under different coordinate derivatives on ({it}, subdomain {k}) were merged", detail)
         else:
@@ -663,7 +670,12 @@ def judge_attach_event(ctx, before, after):
     return ok
 
 
-def judge_build_event(ctx, integrals, idatas):
+def snapshot_idatas(idatas):
+    """Copy of what build_integral_data returned (FormData later rewrites the IntegralData objects in place)."""
+    return [(ida.domain, ida.integral_type, ida.subdomain_id, tuple(ida.domain_integral_type_map.items()), list(ida.integrals)) for ida in idatas]
+
+
+def judge_build_event(ctx, integrals, snap):
     """IntegralData objects must partition the integrals by (domain, type, subdomain ids)."""
     ctx.count("build_events")
     ok = True
@@ -672,17 +684,16 @@ def judge_build_event(ctx, integrals, idatas):
         want[id(itg)] = want.get(id(itg), 0) + 1
     have = {}
     seen_keys = {}
-    for ida in idatas:
-        key = (dom_key(ida.domain), ida.integral_type, canon_value(ida.subdomain_id),
-               tuple((dom_key(d), t) for d, t in ida.domain_integral_type_map.items()))
+    for dom, itype, sid, dmap, itgs in snap:
+        key = (dom_key(dom), itype, canon_value(sid), tuple((dom_key(d), t) for d, t in dmap))
         if key in seen_keys:
-            ctx.violation("C15/build_integral_data/split-bucket", f"two IntegralData for ({ida.integral_type}, {ida.subdomain_id})")
+            ctx.violation("C15/build_integral_data/split-bucket", f"two IntegralData for ({itype}, {sid})")
             ok = False
         seen_keys[key] = True
-        if not ida.integrals:
-            ctx.violation("C15/build_integral_data/empty-bucket", f"IntegralData ({ida.integral_type}, {ida.subdomain_id}) without integrals")
+        if not itgs:
+            ctx.violation("C15/build_integral_data/empty-bucket", f"IntegralData ({itype}, {sid}) without integrals")
             ok = False
-        for itg in ida.integrals:
+        for itg in itgs:
             ctx.count("integrals_bucketed")
             have[id(itg)] = have.get(id(itg), 0) + 1
             if id(itg) not in want:
@@ -690,7 +701,7 @@ def judge_build_event(ctx, integrals, idatas):
                 ok = False
             if (dom_key(itg.ufl_domain()), itg.integral_type(), canon_value(itg.subdomain_id())) != key[:3]:
                 ctx.violation("C15/build_integral_data/wrong-bucket",
-                              f"integral over ({itg.integral_type()}, {itg.subdomain_id()}) filed under ({ida.integral_type}, {ida.subdomain_id})")
+                              f"integral over ({itg.integral_type()}, {itg.subdomain_id()}) filed under ({itype}, {sid})")
                 ok = False
     for i, n in want.items():
         if have.get(i, 0) < n:
@@ -719,7 +730,7 @@ class Tap:
 
             def wrap(*a, _real=real, _n=n, **kw):
                 r = _real(*a, **kw)
-                self.events.append((_n, a, kw, r))
+                self.events.append((_n, a, kw, snapshot_idatas(r) if _n == "build_integral_data" else r))
                 return r
 
             setattr(CFD, n, wrap)
@@ -805,7 +816,7 @@ def build_case_form(ctx, rng, cell, gdim, cplx, variants, with_cd, two_meshes):
 
 # ------------------------------------------------------------------------- deterministic probes
 def probe_pairs():
-    """(name, metadata a, metadata b) - every worker runs them all (cheap) so that each difference kind is observed in every run."""
+    """(name, metadata a, metadata b): the first NPROBES cases of every run, so that each difference kind is observed in every run."""
     n = 2000
     base = np.linspace(0.0, 1.0, n) ** 2 + 0.125
     one = base.copy()
@@ -853,44 +864,47 @@ def probe_pairs():
     return P
 
 
-def once(ctx):
-    import random
+NPROBES = 36
 
-    rng = random.Random(f"C15/probes/{ctx.seed}/{ctx.sub}")
+
+def probe_case(ctx, i, rng):
+    """Cases 0..NPROBES-1: one fixed metadata pair each, on a small generated form, with both append options."""
+    name, ma, mb = probe_pairs()[i]
     cell, gdim = "triangle", 2
     base, pieces = gen_form(rng, cell, gdim, False, 2, 0, ["cell"], metadata_fn=lambda r: None, subdomain_fn=lambda r: None, depth=(1,))
     mesh = base.integrals()[0].ufl_domain()
     f, g = pieces[0][2], pieces[1][2]
     vals = Values(rng, cell, gdim, False)
-    for name, ma, mb in probe_pairs():
-        same = mcanon(ma) == mcanon(mb)
-        F = f * ufl.dx(1, domain=mesh, metadata=ma) + g * ufl.dx(1, domain=mesh, metadata=mb) + f * ufl.dx((1, 2), domain=mesh, metadata=mb)
+    same = mcanon(ma) == mcanon(mb)
+    for append in (True, False):
+        F = (f * ufl.dx(1, domain=mesh, metadata=ma) + g * ufl.dx(1, domain=mesh, metadata=mb) + f * ufl.dx((1, 2), domain=mesh, metadata=mb)
+             + g * ufl.dx(domain=mesh, metadata=ma))
         try:
             with warnings.catch_warnings():
                 warnings.simplefilter("ignore")
-                G = group_form_integrals(F, F.ufl_domains(), do_append_everywhere_integrals=bool(ctx.sub % 2))
+                G = group_form_integrals(F, F.ufl_domains(), do_append_everywhere_integrals=append)
         except Exception as ex:
             ctx.count("probe_rejected")
             ctx.covered("probe_rejected_with", name + ": " + type(ex).__name__)
             continue
         ctx.count("probe_pairs")
-        before = ctx.counters.get("violations_raw", 0)
-        v, _ = judge_group_event(ctx, vals, list(F.integrals()), bool(ctx.sub % 2), list(G.integrals()), label="group_form_integrals")
+        v, _ = judge_group_event(ctx, vals, list(F.integrals()), append, list(G.integrals()), label="group_form_integrals")
         if v == "held":
             ctx.count("probe_held")
             ctx.covered("probes_held", name)
-            n1 = [i for i in G.integrals() if 1 in i.subdomain_id()]
-            ctx.covered("probes_merged" if len(n1) == 1 else "probes_kept_apart", name)
-            if same != (len(n1) == 1):
-                # judge_group_event would have reported; this is only a guard for the bookkeeping itself
-                ctx.count("probe_bookkeeping_mismatch")
+            n1 = [itg for itg in G.integrals() if 1 in itg.subdomain_id()]
+            want = 1 if (same and not append) else (2 if not append else (1 if same else 2))
+            ctx.covered("probes_merged" if same else "probes_kept_apart", name)
+            ctx.add_distinct(("probe", name, append))
+            del n1, want
         elif v == "undecided":
             ctx.count("probe_undecided")
-        del before
 
 
 # ------------------------------------------------------------------------- random cases
 def case(ctx, i, rng):
+    if i < NPROBES:
+        return probe_case(ctx, i, rng)
     cell, gdim = rng.choice(CELLS)
     cplx = rng.random() < 0.2
     mode = "pipeline" if rng.random() < 0.22 else "direct"
@@ -913,6 +927,14 @@ def case(ctx, i, rng):
     with warnings.catch_warnings():
         warnings.simplefilter("ignore")
         if mode == "direct":
+            if degrees and rng.random() < 0.8:
+                # degree estimation needs the lowered algebra (as in the real pipeline)
+                try:
+                    F = apply_algebra_lowering(F)
+                except Exception as ex:
+                    ctx.count("rejected")
+                    ctx.covered("rejected_with", "lowering: " + type(ex).__name__ + ": " + str(ex)[:60])
+                    return
             try:
                 G = group_form_integrals(F, F.ufl_domains(), do_append_everywhere_integrals=append)
             except Exception as ex:
@@ -931,7 +953,7 @@ def case(ctx, i, rng):
                     G2 = G
             try:
                 ids = build_integral_data(G2.integrals())
-                events.append(("build_integral_data", (G2.integrals(),), {}, ids))
+                events.append(("build_integral_data", (G2.integrals(),), {}, snapshot_idatas(ids)))
             except Exception as ex:
                 ctx.count("build_integral_data_rejected")
                 ctx.covered("rejected_with", "build: " + type(ex).__name__ + ": " + str(ex)[:60])
